@@ -525,6 +525,12 @@ def _run_property(pid, tier, seed):
             print("  detail:", json.dumps(best["detail"], default=str)[:1500])
     for b in sorted(hits):
         print(f"KNOWN-FINDING: property={pid} {known[b]['description']} (hits: {hits[b]})")
+        try:  # keep the smallest instance of a recorded finding for inspection (never read back)
+            os.makedirs(outdir, exist_ok=True)
+            with open(os.path.join(outdir, f"known-{pid}-{hashlib.sha1(b.encode()).hexdigest()[:10]}.json"), "w") as f:
+                json.dump({"property": pid, "bucket": b, "case": acc.buckets[b]["case"], "detail": acc.buckets[b]["detail"]}, f, indent=1, default=str)
+        except OSError:
+            pass
 
     # 5. evidence
     wall = time.time() - t0
